@@ -140,7 +140,11 @@ func c01Run1(in []byte, v c01Variant, wantMeasure bool) (sig uint64, ok bool, ke
 				}
 				effective = in[:capv]
 			}
-			m.Raw = make([]byte, capv/2, capv)
+			if v.Used && v.Slack == 64 && !v.Trunc && cap(m.Raw) >= len(in) {
+				// the read loop of a client: the Message that held the previous (large, valid) datagram is read into again
+			} else {
+				m.Raw = make([]byte, capv/2, capv)
+			}
 			var n int64
 			n, err = m.ReadFrom(&udpReader{d: data})
 			if int(n) != len(effective) {
@@ -317,6 +321,7 @@ func init() {
 			sweepTinyBodies(c, ba, mk(narrow, "narrow"))
 			sweepLarge(c, mk(wide, "wide"))
 			sweepTypes(c, mk(narrow, "narrow"))
+			sweepShort(c, mk(wide, "wide"))
 			c.Watch(nil)
 			if c.Expired() {
 				c.Res.Exhaustive = false
